@@ -459,6 +459,7 @@ class C09(Property):
             "Integer, String or Dict members, started by a constructor/set/set_default/from_defaults route; arguments "
             "are plain values (valid, unadaptable, None), fresh Elements, or Elements detached earlier (pool); "
             "Cases the Lean model does not cover (set_flat/from_flat, model paths answering unsupported) are marked oracle-only before the run and are not counted as validated traces (tag model=oracle-only). "
+            "Element arguments are read (root/path/parents/fq_name) before they are handed over in half of the cases; 'observe' steps only read. "
             "non-trivial = at least 3 calls changed the sequence or raised")
     quick_n = 40000
     thorough_n = 300000
